@@ -39,7 +39,7 @@ class Execution:
     __slots__ = ('prefix', 'points', 'rc', 'result', 'log', 'san', 'trace_tail', 'child_traces', 'timed_out', 'stdout')
 
 
-def run_one(h_thr, w, cfgtext, n, k, mode, prefix, san='asan', fn=False, extra_args=(), timeout=60):
+def run_one(h_thr, w, cfgtext, n, k, mode, prefix, san='asan', fn=False, extra_args=(), timeout=60, env_extra=None):
     shutil.rmtree(w, ignore_errors=True)
     os.makedirs(w)
     ini = os.path.join(w, 'snoopy.ini')
@@ -49,8 +49,11 @@ def run_one(h_thr, w, cfgtext, n, k, mode, prefix, san='asan', fn=False, extra_a
     env['VS_TRACE'] = os.path.join(w, 'trace')
     env['LOGNAME'] = 'lg'
     env['V'] = 'envvalue'
+    env['VS_STDIN_PTY'] = '1'
     if fn:
         env['VS_FN'] = '1'
+    if env_extra:
+        env.update(env_extra)
     res = os.path.join(w, 'res.json')
     x = Execution()
     x.prefix = list(prefix)
